@@ -18,16 +18,25 @@ def _cfg(path, **kv):
 ALL_KINDS = ["Filter", "Aggregate", "Sort", "Take", "Distinct", "DistinctOn", "Join", "Union"]
 
 def mc(tier, name="backend"):
-    """-> (pipelines for replay, info).  Raises ToolError when the repaired machine violates an invariant (a defect of the
-    design that is not a listed finding shows here first) or when the unrepaired machine does not."""
-    maxlen = 3 if tier == "quick" else 4
-    cfg = os.path.join(SPEC, f"BackendMC_{name}.cfg")
-    _cfg(cfg, Repaired="TRUE", MaxLen=maxlen, MaxComp=2, Emit="TRUE", Report="FALSE", Kinds=ALL_KINDS)
-    out, info = tlc("BackendMC", os.path.basename(cfg), workers=8 if tier == "quick" else 12, xmx="14g", timeout=3 * 3600)
-    os.remove(cfg)
+    """-> (pipelines for replay, info).  info["design_violation"] when the repaired machine violates an invariant (a defect of
+    the design that is not a listed finding shows here first); ToolError when the machine as found does not."""
+    def one(maxlen, emit, workers):
+        cfg = os.path.join(SPEC, f"BackendMC_{name}_{maxlen}.cfg")
+        _cfg(cfg, Repaired="TRUE", MaxLen=maxlen, MaxComp=2, Emit="TRUE" if emit else "FALSE", Report="FALSE", Kinds=ALL_KINDS)
+        try:
+            return tlc("BackendMC", os.path.basename(cfg), workers=workers, xmx="20g", timeout=4 * 3600)
+        finally:
+            os.remove(cfg)
+    out, info = one(3, True, 8)
     if not info["no_error"]:
         return [], dict(info, design_violation=True)
     pipes = replay_lines(out)
+    info["bound"] = "<= 3 transforms between From and Select, <= 2 Computes"
+    if tier == "thorough":
+        _, deep = one(4, False, 14)
+        info["deeper"] = {"bound": "<= 4 transforms, <= 2 Computes", "states": deep.get("distinct"), "transitions": deep.get("generated"), "holds": deep["no_error"], "wall_s": deep["wall_s"]}
+        if not deep["no_error"]:
+            return pipes, dict(info, design_violation=True, error_text=deep.get("error_text"))
     out2, info2 = tlc("BackendMC", "BackendMC_unrepaired.cfg", workers=4)
     if info2["no_error"] or "EmittedOk is violated" not in out2:
         raise ToolError("BackendMC on the machine as found (before the F97/F98 repair) no longer finds the take | distinct pipeline: the model has gone vacuous")
